@@ -44,7 +44,7 @@ enum {
     H_NEW = 0, H_NEWD, H_COPYCTOR, H_MOVECTOR, H_COPYASSIGN, H_MOVEASSIGN, H_CONVCOPYCTOR, H_CONVMOVECTOR,
     H_CONVCOPYASSIGN, H_CONVMOVEASSIGN, H_RESET, H_SWAP, H_UNIFY, H_DROP, H_ASSIGN_NULL, H_DRESET, H_DCOPY, H_N
 };
-enum { T_COPY_BASE = 0, T_COPY_OWN, T_MOVE_OWN, T_RESET, T_DROP, T_COPYCTOR, T_READ, T_N };
+enum { T_COPY_BASE = 0, T_COPY_OWN, T_MOVE_OWN, T_RESET, T_DROP, T_COPYCTOR, T_READ, T_UNIFY, T_SWAP, T_N };
 
 void generate(Rng& r, Workload& w, int tier) {
     int mode = r.chance(1, 2) ? 1 : 0;
@@ -244,6 +244,9 @@ void run_concurrent(const Workload& w, Result& res) {
                 case T_DROP: p[o.a] = nullptr; break;
                 case T_COPYCTOR: if (p[o.b]) { auto q = std::make_unique<Ptr>(*p[o.b]); p[o.a] = std::move(q); } break;
                 case T_READ: if (p[o.a] && p[o.a]->get() && (*p[o.a])->payload < 7000) sim::rt_cell_add(CELL_ERR + 2, 1); break;
+                // unify(): if the object is shared, continue on a private copy (a new ledgered object)
+                case T_UNIFY: if (p[o.a] && p[o.a]->get()) p[o.a]->unify(); break;
+                case T_SWAP: if (p[o.a] && p[o.b]) p[o.a]->swap(*p[o.b]); break;
                 }
             }
             if (t < survivors) {
@@ -255,27 +258,47 @@ void run_concurrent(const Workload& w, Result& res) {
     }
     if (drop_base_early) { sim::event(EV_DROP, 100); base = nullptr; }
     for (auto& t : th) t.join();
-    int expect = (base ? 1 : 0);
-    for (auto& k : kept) if (k) expect++;
-    bool destroyed = sim::rt_cell_get(uint32_t(CELL_BASE + oid)) == 2;
-    if (expect == 0) {
-        if (!destroyed) res.fail("cptr_not_destroyed", "no handle survives the threads but the object was not destroyed");
-        res.probe("destroyed_by_worker_thread");
-    } else {
-        if (destroyed) res.fail("cptr_destroyed_while_owned", "object destroyed although " + std::to_string(expect) + " handle(s) survive");
-        else {
-            const Ptr* anyp = base.get();
-            for (auto& k : kept) if (!anyp && k) anyp = k.get();
-            const Ptr& any = *anyp;
-            if (int(any.use_count()) != expect)
-                res.fail("cptr_count", "after join use_count()=" + std::to_string(any.use_count()) + ", surviving handles=" + std::to_string(expect));
+    // survivors: the controller's handle (if kept) and the handles handed back; unify() may have
+    // created private copies, so the oracle is per object: count == number of surviving handles
+    // pointing to it, destroyed iff that number is zero
+    std::vector<const Ptr*> surv;
+    if (base) surv.push_back(base.get());
+    for (auto& k : kept) if (k) surv.push_back(k.get());
+    const int last_id = int(sim::rt_cell_get(CELL_NEXT_ID));
+    std::vector<int> holders(size_t(last_id) + 1, 0);
+    std::vector<const Ptr*> via(size_t(last_id) + 1, nullptr);
+    for (const Ptr* h : surv) {
+        if (!h->get()) continue;
+        // liveness first (through the ledger, by address-independent id read only if some live object has this address)
+        int id = h->get()->id;
+        if (id < 1 || id > last_id || sim::rt_cell_get(uint32_t(CELL_BASE + id)) != 1) {
+            res.fail("cptr_destroyed_while_owned", "a surviving handle points to a destroyed object");
+            continue;
+        }
+        holders[size_t(id)]++; via[size_t(id)] = h;
+    }
+    bool any_worker_destroy = false;
+    for (int id = oid; id <= last_id && res.ok; ++id) {
+        bool alive = sim::rt_cell_get(uint32_t(CELL_BASE + id)) == 1;
+        if (holders[size_t(id)] == 0) {
+            if (alive) res.fail("cptr_not_destroyed", "object " + std::to_string(id) + ": no handle survives the threads but it was not destroyed");
+            else any_worker_destroy = true;
+        } else {
+            const Ptr& any = *via[size_t(id)];
+            if (int(any.use_count()) != holders[size_t(id)])
+                res.fail("cptr_count", "object " + std::to_string(id) + ": after join use_count()=" + std::to_string(any.use_count()) +
+                                           ", surviving handles=" + std::to_string(holders[size_t(id)]));
             if (any->payload != 7000 + oid) res.fail("cptr_destroyed_while_owned", "payload damaged");
         }
-        base = nullptr;
-        for (auto& k : kept) k = nullptr;
-        if (sim::rt_cell_get(uint32_t(CELL_BASE + oid)) != 2) res.fail("cptr_not_destroyed", "object alive after the last handle was dropped");
-        res.probe("destroyed_by_controller");
     }
+    if (last_id > oid) res.probe("unify_made_a_copy");
+    if (any_worker_destroy) res.probe("destroyed_by_worker_thread");
+    base = nullptr;
+    for (auto& k : kept) k = nullptr;
+    for (int id = oid; id <= last_id && res.ok; ++id)
+        if (sim::rt_cell_get(uint32_t(CELL_BASE + id)) != 2)
+            res.fail("cptr_not_destroyed", "object " + std::to_string(id) + " alive after the last handle was dropped");
+    if (!surv.empty()) res.probe("destroyed_by_controller");
     if (sim::rt_cell_get(CELL_ERR) != 0) res.fail("cptr_double_destroy", "object destroyed twice");
     if (sim::rt_cell_get(CELL_ERR + 2) != 0) res.fail("cptr_destroyed_while_owned", "a thread read a destroyed payload through its handle");
     res.probe("concurrent_run");
